@@ -119,6 +119,8 @@
   /* sleep stack (myth_sleep_queue_func.h) */ \
   X(SS_PUSH_BEFORE_CAS, W) \
   X(SS_POP_BEFORE_CAS, W) \
+  X(SQ_ENQ_LOCKED, W) \
+  X(SQ_DEQ_LOCKED, W) \
   /* run queue (myth_wsqueue_func.h, myth_if_native.c) */ \
   X(Q_PUSH_BEFORE_SLOT, W) \
   X(Q_PUSH_BEFORE_TOP, W) \
